@@ -29,8 +29,8 @@ SPEC = {
     "watchdog_s": {"quick": 900, "thorough": 3600},
 }
 PLAN = {
-    "quick": {"small_n": 4, "random": {"M2": 1400, "M3": 1000, "M4": 300, "M5": 300, "M7s": 200, "M10hiso": 600}, "variants": 2, "k": 2, "corpus": True},
-    "thorough": {"small_n": 5, "small_sample": 0.12, "random": {"M2": 12000, "M3": 9000, "M4": 3000, "M5": 3000, "M7s": 1500, "M10hiso": 6000}, "variants": 4, "k": 4,
+    "quick": {"small_n": 4, "random": {"M2": 1400, "M3": 1000, "M4": 300, "M5": 300, "M7s": 200, "M10hiso": 600, "M12rings": 500}, "variants": 2, "k": 2, "corpus": True},
+    "thorough": {"small_n": 5, "small_sample": 0.12, "random": {"M2": 12000, "M3": 9000, "M4": 3000, "M5": 3000, "M7s": 1500, "M10hiso": 6000, "M12rings": 5000}, "variants": 4, "k": 4,
                  "corpus": True, "cfi": 6},
 }
 
